@@ -4,8 +4,9 @@ import vp_coq, options_cases as oc, subprocess, tempfile, shutil
 
 
 def gen(ctx, n):
-    kinds = ["legal", "alias", "legal", "short", "alias", "legal"]
-    cs = [oc.gen_case(ctx, "r%d" % i, kinds[i % len(kinds)]) for i in range(n)]
+    kinds = ["legal", "alias", "legal", "short", "alias", "legal", "override"]
+    cs = [oc.gen_override(ctx, "r%d" % i) if kinds[i % len(kinds)] == "override" else oc.gen_case(ctx, "r%d" % i, kinds[i % len(kinds)])
+          for i in range(n)]
     # boundary cases of the round-trip proof: f_s zero / non-zero with alpha0, vectors, aliases, long mantissas
     extra = [(["--alpha0", "1.2345678e-3"], None), (["-f", "8123.4567", "--alpha0", "5e-3"], None),
              (["-I", "1e-3", "0", "1.2345678e-4"], None), (["-I", "0.5"], [("BunchCurrent", ["1", "2"])]),
@@ -13,16 +14,22 @@ def gen(ctx, n):
              ([], [("RFVoltage", ["5e5"]), ("steps", ["256"]), ("SyncFreq", ["7123.456"])]),
              (["-V", "2e6"], [("RFVoltage", ["5e5"]), ("alpha0", ["0"])]),
              (["-o", "/dev/null", "-i", "/dev/null", "--tracking", "t.txt"], None)]
-    for k, (av, items) in enumerate(extra):
+    cli_of = oc.cli_of
+    # the saved file re-read with extra command-line options: an option the original gave, one it took from a legacy line of
+    # the parent file, the vector option, alpha0 against a saved alpha0=0, a synchrotron frequency on top of a saved alpha0
+    extra_x = [(["-V", "2e6", "-I", "1e-3", "2e-3"], None, ["-V", "3.3e6"]),
+               ([], [("RFVoltage", ["5e5"]), ("steps", ["256"])], ["-N", "128"]),
+               (["-I", "1e-3", "2e-3"], None, ["-I", "0.5", "0.25", "0.125"]),
+               (["-f", "8123.4567", "--alpha0", "5e-3"], None, ["--alpha0", "4e-3"]),
+               (["--alpha0", "1.2345678e-3"], None, ["-f", "7000.5"]),
+               (["-o", "a.h5"], [("GridSize", ["64"])], ["-o", "/dev/null", "--GridSize", "32"])]
+    for k, e in enumerate([x + (None,) for x in extra] + extra_x):
+        av, items, xav = e
         c = oc.OptCase("rb%d" % k)
-        i = 0
-        while i < len(av):
-            nm = av[i]
-            j = i + 1
-            while j < len(av) and not (av[j].startswith("-") and not av[j][1:2].isdigit() and av[j] != "-"):
-                j += 1
-            c.cli.append(dict(kind="L" if nm.startswith("--") else "S", name=nm.lstrip("-"), toks=av[i + 1:j], opt=None))
-            i = j
+        c.cli = cli_of(av)
+        if xav:
+            c.xcli = cli_of(xav)
+            c.tags.add("reload-override")
         if items is not None:
             c.cfg = dict(file="run.cfg", state="file", items=items)
             c.cli.append(dict(kind="L", name="config", toks=["run.cfg"], opt="config"))
@@ -88,7 +95,9 @@ def program_level(ctx, tg):
 def run(ctx, cases=None):
     ctx.rule = ("random assignments of all options over command line / config file / ./default.cfg / defaults (tokens: exactly "
                 "representable and 7-17 digit values, one or many bunch currents, alpha0 with and without synchrotron frequency, "
-                "legacy aliases) plus the boundary cases of the round-trip proof; parse -> getters, save, parse --config saved -> getters. "
+                "legacy aliases) plus the boundary cases of the round-trip proof; parse -> getters, save, parse --config saved -> getters; "
+                "every seventh case re-reads the saved file a second time with extra command-line options (`inovesa <extra> --config saved`: "
+                "the extra options must take their command-line values, everything else must be as originally). "
                 "Model vs implementation: status, members, names and values of the saved lines, reload status and members. "
                 "Oracle on the implementation alone: every getter equal after reload, except run_anyway (deliberately not saved) and "
                 "alpha0 when a synchrotron frequency is given (unused then). Non-trivial: at least one member differs from its default.")
